@@ -215,6 +215,8 @@ def generate(rng, tier, i):
         faults = {"mode": "plan", "plan": plan}
     return {
         "grid": grid, "coord_unit": rng.choice(["angstrom", "us", "one"]),
+        "coord_dtype": rng.choice(["float64", "float64", "float64", "float32"]),
+        "results_as": rng.choice(["list", "list", "tuple", "generator", "iter", "map"]),
         "data_unit": rng.choice(["counts", "one"]), "truth": truth,
         "estimates": est, "windows": windows,
         "background": _gen_spec(rng, BKG_NAMES), "peak": _gen_spec(rng, PEAK_NAMES),
@@ -247,6 +249,10 @@ def make_data(scn):
     import scipp as sc
 
     x = make_grid(scn["grid"])
+    if scn.get("coord_dtype", "float64") == "float32":
+        # coordinates as stored in many NeXus files; every float32 is a float64, so the
+        # reference computations keep working with the values the library sees
+        x = x.astype("float32").astype("float64")
     t = scn["truth"]
     y = ref_fit.polynomial(x - x[0], t["bkg"])
     for p in t["peaks"]:
@@ -261,7 +267,8 @@ def make_data(scn):
     y = y + r.normal(0, 1, len(x)) * sig
     da = sc.DataArray(
         sc.array(dims=["x"], values=y, variances=sig**2, unit=scn["data_unit"]),
-        coords={"x": sc.array(dims=["x"], values=x, unit=scn["coord_unit"])},
+        coords={"x": sc.array(dims=["x"], values=x.astype(scn.get("coord_dtype", "float64")),
+                              unit=scn["coord_unit"])},
     )
     return da, x, y, sig**2
 
@@ -747,7 +754,14 @@ class FitEngine(Engine):
 
         bare = sc.DataArray(sc.values(da.data), coords={"x": da.coords["x"]})
         pristine = bare.copy()
-        out, exc = core.capture(remove_peaks, bare, results)
+        # fit_results is documented as Iterable[FitResult]: hand it over in the container kinds
+        # callers use (the list from fit_peaks, a tuple, one-shot iterators)
+        kind = scn.get("results_as", "list")
+        ctx.probe("remove_results_as_" + kind)
+        handed = {"list": lambda: results, "tuple": lambda: tuple(results),
+                  "generator": lambda: (r for r in results), "iter": lambda: iter(list(results)),
+                  "map": lambda: map(lambda r: r, results)}[kind]()
+        out, exc = core.capture(remove_peaks, bare, handed)
         if exc is not None:
             ctx.violate("remove", f"[{where}] remove_peaks raised {exc}", kind="remove:raised")
             return
@@ -859,8 +873,9 @@ class FitEngine(Engine):
             c = copy.deepcopy(s)
             c["grid"]["n"] = max(20, s["grid"]["n"] // 2)
             yield c
-        for key, val in (("coord_unit", "one"), ("data_unit", "one")):
-            if s[key] != val:
+        for key, val in (("coord_unit", "one"), ("data_unit", "one"), ("coord_dtype", "float64"),
+                         ("results_as", "list")):
+            if s.get(key, val) != val:
                 c = copy.deepcopy(s)
                 c[key] = val
                 yield c
